@@ -354,6 +354,9 @@ func ChangeTypeFunc(query *Query, current Map, functionOptions *FunctionOptions,
 	if err != nil {
 		return nil, err
 	}
+	if conversionType == nil {
+		return nil, EXPECTATION_FAILED.Extend("conversion type is null")
+	}
 	switch strings.ToLower(*conversionType) {
 	case "array":
 		{
@@ -717,6 +720,9 @@ func HashFunc(query *Query, current Map, functionOptions *FunctionOptions, args 
 	if err != nil {
 		return nil, err
 	}
+	if hashFunction == nil {
+		return nil, EXPECTATION_FAILED.Extend("hash function is null")
+	}
 	switch strings.ToLower(*hashFunction) {
 	case "sha1":
 		{
@@ -784,6 +790,9 @@ func EncodeFunc(query *Query, current Map, functionOptions *FunctionOptions, arg
 	if err != nil {
 		return nil, err
 	}
+	if base == nil {
+		return nil, EXPECTATION_FAILED.Extend("base is null")
+	}
 	switch strings.ToLower(*base) {
 	case "base64":
 		{
@@ -825,6 +834,12 @@ func DecodeFunc(query *Query, current Map, functionOptions *FunctionOptions, arg
 	base, err := AsType[string](args[1])
 	if err != nil {
 		return nil, err
+	}
+	if data == nil {
+		return nil, EXPECTATION_FAILED.Extend("data is null")
+	}
+	if base == nil {
+		return nil, EXPECTATION_FAILED.Extend("base is null")
 	}
 	switch strings.ToLower(*base) {
 	case "base64":
